@@ -484,4 +484,48 @@ theorem gen_unet_blocks_pow2 (s a b : Nat) (hb : b ≤ a) :
   rw [e1, log2Trunc_pow2 s 0 (by omega), log2Trunc_pow2 a 0 (by omega), log2Trunc_pow2 a b hb]
   simp
 
+open SleapVerif.Gen.TranslatedArch in
+/-- the generated per-block filter counts of `Encoder.__init__` / `Decoder.__init__` are the closed forms the
+    hand model uses (`int(filters · rate^k)`, NOT an incremental `int(prev · rate)`): stem block `b` ↦ `k = b`,
+    down block `b` ↦ `k = b + stem_blocks`, decoder block `b` ↦ `k = down + stem - 1 - b` -/
+theorem gen_block_filters_eq_model (f : Nat) (r : Rate) (b stem down : Int) :
+    enc_stem_block_filters f r b stem = scale f r b ∧
+      enc_down_block_filters f r b stem = scale f r (b + stem) ∧
+      dec_block_filters_in f r b stem down = scale f r (down + stem - 1 - b) := ⟨rfl, rfl, rfl⟩
+
+open SleapVerif.Gen.TranslatedArch in
+/-- … and the model's decoder blocks carry exactly the generated count -/
+theorem gen_dec_block_filters_is_model (f : Nat) (r : Rate) (stem down : Int) (xIn block cur n : Nat) :
+    ((decUp f r (down + stem) xIn block cur (n + 1)).map (·.out)).head?
+      = some (dec_block_filters_in f r block stem down) := by
+  simp [decUp, dec_block_filters_in]
+
+/-- closed form vs incremental truncation: they differ as soon as truncation compounds
+    (`filters = 4`, rate 3/2, level 4: `int(4·1.5^4) = 20` but `int(int(int(int(4·1.5)·1.5)·1.5)·1.5) = 19`) -/
+theorem closed_form_ne_incremental :
+    scale 4 ⟨3, 2⟩ 4 = 20 ∧ scale (scale (scale (scale 4 ⟨3, 2⟩ 1) ⟨3, 2⟩ 1) ⟨3, 2⟩ 1) ⟨3, 2⟩ 1 = 19 := by decide
+
+def witnessHeadInChannels : Cfg :=
+  { fam := .unet, variant := 0, filters := 4, rate := ⟨3, 2⟩, maxStride := 32, bos := 8, stem := 0,
+    cpb := 2, middle := true, upInterp := true, inCh := 1, heads := [⟨16, 3⟩],
+    fixMid := true, fixWrap := true }
+
+/-- F-C14-head-in-channels (outside `inGrid`: `filters = 4`): `Model.__init__` re-derives the head's `in_channels` as
+    `int(round(max_channels / r^n) · r^factor)` = 19, the decoder block at stride 16 has `int(4·1.5^4)` = 20
+    filters ⇒ forward raises; reading the count from the decoder block (`constructFixed`,
+    `fixes/C14-head-in-channels.patch`) gives the contracted output. -/
+theorem arch_head_in_channels_counterexample :
+    docValid witnessHeadInChannels = true ∧ supported witnessHeadInChannels = true ∧
+      inGrid witnessHeadInChannels = false ∧
+      run witnessHeadInChannels true 32 32 = .err .runtime ∧
+      (match construct witnessHeadInChannels with
+       | .ok k => k.headIn == [19] && k.built.dec.map (·.out) == [20, 13]
+       | .err _ => false) = true ∧
+      (match constructFixed witnessHeadInChannels with
+       | .ok k => (match forward witnessHeadInChannels k true 32 32 with
+                   | .ok f => f.outs == [(3, 2, 2)]
+                   | .err _ => false)
+       | .err _ => false) = true := by
+  decide +kernel
+
 end SleapVerif.C14
